@@ -62,6 +62,10 @@ type ColNullable[T any] struct {
 	Values ColumnOf[T]
 }
 
+func (c *ColNullable[T]) adoptType(t ColumnType) error {
+	return adoptType(c.Values, t.Elem())
+}
+
 func (c *ColNullable[T]) DecodeState(r *Reader) error {
 	if s, ok := c.Values.(StateDecoder); ok {
 		if err := s.DecodeState(r); err != nil {
